@@ -287,6 +287,8 @@ class Check:
                 pass
         def read_out():
             for ln in p.stdout:
+                if len(ln) > (256 << 20):      # a single answer of more than 256 MB is cut (it cannot be a correct one)
+                    ln = ln[:1 << 20] + b' ...TRUNCATED-OVERLONG-ANSWER\n'
                 q.put(ln)
             q.put(None)
         def read_err():
